@@ -19,6 +19,7 @@ package object
 //@ inline
 //@ requires b != nil && other != nil && ref(other) != nil
 //@ ensures[C15.cmp.range] result1 == nil ==> oneof(result0, -1, 0, 1)
+//@ ensures[C15,C16.cmp.err.zero] result1 != nil ==> result0 == 0
 //@ ensures[C16.sort.cmp.range] result1 == nil ==> oneof(result0, -1, 0, 1)
 
 //@ func (*Buffer).Compare
@@ -26,6 +27,7 @@ package object
 //@ inline
 //@ requires b != nil && other != nil && ref(other) != nil
 //@ ensures[C15.cmp.range] result1 == nil ==> oneof(result0, -1, 0, 1)
+//@ ensures[C15,C16.cmp.err.zero] result1 != nil ==> result0 == 0
 //@ ensures[C16.sort.cmp.range] result1 == nil ==> oneof(result0, -1, 0, 1)
 
 //@ func (*Byte).Compare
@@ -33,6 +35,7 @@ package object
 //@ inline
 //@ requires b != nil && other != nil && ref(other) != nil
 //@ ensures[C15.cmp.range] result1 == nil ==> oneof(result0, -1, 0, 1)
+//@ ensures[C15,C16.cmp.err.zero] result1 != nil ==> result0 == 0
 //@ ensures[C16.sort.cmp.range] result1 == nil ==> oneof(result0, -1, 0, 1)
 
 //@ func (*ByteSlice).Compare
@@ -40,6 +43,7 @@ package object
 //@ inline
 //@ requires b != nil && other != nil && ref(other) != nil
 //@ ensures[C15.cmp.range] result1 == nil ==> oneof(result0, -1, 0, 1)
+//@ ensures[C15,C16.cmp.err.zero] result1 != nil ==> result0 == 0
 //@ ensures[C16.sort.cmp.range] result1 == nil ==> oneof(result0, -1, 0, 1)
 
 //@ func (*Error).Compare
@@ -47,6 +51,7 @@ package object
 //@ inline
 //@ requires e != nil && other != nil && ref(other) != nil
 //@ ensures[C15.cmp.range] result1 == nil ==> oneof(result0, -1, 0, 1)
+//@ ensures[C15,C16.cmp.err.zero] result1 != nil ==> result0 == 0
 //@ ensures[C16.sort.cmp.range] result1 == nil ==> oneof(result0, -1, 0, 1)
 
 //@ func (*FileMode).Compare
@@ -54,6 +59,7 @@ package object
 //@ inline
 //@ requires m != nil && other != nil && ref(other) != nil
 //@ ensures[C15.cmp.range] result1 == nil ==> oneof(result0, -1, 0, 1)
+//@ ensures[C15,C16.cmp.err.zero] result1 != nil ==> result0 == 0
 //@ ensures[C16.sort.cmp.range] result1 == nil ==> oneof(result0, -1, 0, 1)
 
 //@ func (*Float).Compare
@@ -61,6 +67,7 @@ package object
 //@ inline
 //@ requires f != nil && other != nil && ref(other) != nil
 //@ ensures[C15.cmp.range] result1 == nil ==> oneof(result0, -1, 0, 1)
+//@ ensures[C15,C16.cmp.err.zero] result1 != nil ==> result0 == 0
 //@ ensures[C16.sort.cmp.range] result1 == nil ==> oneof(result0, -1, 0, 1)
 
 //@ func (*Int).Compare
@@ -68,6 +75,7 @@ package object
 //@ inline
 //@ requires i != nil && other != nil && ref(other) != nil
 //@ ensures[C15.cmp.range] result1 == nil ==> oneof(result0, -1, 0, 1)
+//@ ensures[C15,C16.cmp.err.zero] result1 != nil ==> result0 == 0
 //@ ensures[C16.sort.cmp.range] result1 == nil ==> oneof(result0, -1, 0, 1)
 
 //@ func (*Module).Compare
@@ -75,6 +83,7 @@ package object
 //@ inline
 //@ requires m != nil && other != nil && ref(other) != nil
 //@ ensures[C15.cmp.range] result1 == nil ==> oneof(result0, -1, 0, 1)
+//@ ensures[C15,C16.cmp.err.zero] result1 != nil ==> result0 == 0
 //@ ensures[C16.sort.cmp.range] result1 == nil ==> oneof(result0, -1, 0, 1)
 
 //@ func (*NilType).Compare
@@ -82,6 +91,7 @@ package object
 //@ inline
 //@ requires n != nil && other != nil && ref(other) != nil
 //@ ensures[C15.cmp.range] result1 == nil ==> oneof(result0, -1, 0, 1)
+//@ ensures[C15,C16.cmp.err.zero] result1 != nil ==> result0 == 0
 //@ ensures[C16.sort.cmp.range] result1 == nil ==> oneof(result0, -1, 0, 1)
 
 //@ func (*String).Compare
@@ -89,6 +99,7 @@ package object
 //@ inline
 //@ requires s != nil && other != nil && ref(other) != nil
 //@ ensures[C15.cmp.range] result1 == nil ==> oneof(result0, -1, 0, 1)
+//@ ensures[C15,C16.cmp.err.zero] result1 != nil ==> result0 == 0
 //@ ensures[C16.sort.cmp.range] result1 == nil ==> oneof(result0, -1, 0, 1)
 
 //@ func (*Time).Compare
@@ -96,6 +107,7 @@ package object
 //@ inline
 //@ requires t != nil && other != nil && ref(other) != nil
 //@ ensures[C15.cmp.range] result1 == nil ==> oneof(result0, -1, 0, 1)
+//@ ensures[C15,C16.cmp.err.zero] result1 != nil ==> result0 == 0
 //@ ensures[C16.sort.cmp.range] result1 == nil ==> oneof(result0, -1, 0, 1)
 
 // sorted(): object.Sort orders by "Compare == -1" (the comparison itself is checked: sortby) and leaves the slice a
